@@ -233,6 +233,61 @@ def _inside(i, j):
     return And(i.qs <= i.info[j].s, i.info[j].e <= i.qe)
 
 
+class IdentifierQueries(Case):
+    """identifier / interval-GUID queries on a collection whose members SHARE an identifier (gene g0 and feature
+    collection fc both carry locus tag LT1; gene g2 carries LT2): query_by_feature_identifiers returns EVERY member
+    holding a requested identifier; query_by_transcript_interval_guids selects by transcript GUIDs only - a feature
+    interval's GUID selects nothing (an empty collection, not an error); query_by_feature_interval_guids likewise."""
+    props = ("C09", "C19")
+    name = "AnnotationCollection identifier / interval-GUID queries[members sharing an identifier]"
+    func = AC + ".query_by_feature_identifiers"
+    module = "gene.collections"
+    shard_depth = 4
+    call = ("(lambda m: (m(col.query_by_feature_identifiers('LT1')), m(col.query_by_feature_identifiers(['LT1', 'LT2'])), "
+            "m(col.query_by_feature_identifiers(['LT2', 'nope'])), m(col.query_by_feature_identifiers('nope')), "
+            "m(col.query_by_transcript_interval_guids(feat.guid)), m(col.query_by_transcript_interval_guids([tx.guid, feat.guid])), "
+            "m(col.query_by_feature_interval_guids(tx.guid)), m(col.query_by_feature_interval_guids([feat.guid]))))"
+            "(lambda r: (sorted(g.gene_id for g in r.genes), [c.feature_collection_id for c in r.feature_collections]))")
+    ensures = {
+        "every-member-holding-a-requested-identifier": lambda i, r: (
+            _mm(r[0]) == (["g0"], ["fc"]) and _mm(r[1]) == (["g0", "g2"], ["fc"]) and _mm(r[2]) == (["g2"], [])
+            and _mm(r[3]) == ([], [])),
+        "interval-guid-queries-select-by-their-own-kind-only": lambda i, r: (
+            _mm(r[4]) == ([], []) and _mm(r[5]) == (["g0"], []) and _mm(r[6]) == ([], []) and _mm(r[7]) == ([], ["fc"])),
+    }
+
+    def inputs(self, S):
+        strand = strand_of(S, "strand")
+        ss = [S.int(f"s{j}") for j in range(3)]
+        es = [S.int(f"e{j}") for j in range(3)]
+        for s_, e_ in zip(ss, es):
+            S.assume(And(0 <= s_, s_ < e_))
+        # distinct content => distinct GUIDs (GUIDs are digests of the content)
+        S.assume(And(ss[0] != ss[1], ss[0] != ss[2], ss[1] != ss[2]))
+        tx = S.new(TRANSCRIPT, [ss[0]], [es[0]], strand, transcript_id="tx0")
+        g0 = S.new(GENE, [tx], gene_id="g0", locus_tag="LT1")
+        feat = S.new(FEATURE, [ss[1]], [es[1]], strand, feature_id="f1")
+        fc = S.new(FCOL, [feat], feature_collection_id="fc", locus_tag="LT1")
+        tx2 = S.new(TRANSCRIPT, [ss[2]], [es[2]], strand, transcript_id="tx2")
+        g2 = S.new(GENE, [tx2], gene_id="g2", locus_tag="LT2")
+        col = S.new(AC, genes=[g0, g2], feature_collections=[fc])
+        return NS(col=col, tx=tx, feat=feat)
+
+    def samples(self, rng):
+        d = dict(strand=rng.choice(["PLUS", "MINUS"]))
+        starts = rng.sample(range(0, 20), 3)
+        for j in range(3):
+            d[f"s{j}"], d[f"e{j}"] = starts[j], starts[j] + rng.randint(1, 6)
+        return d
+
+    def observe(self, r):
+        return [[list(a), list(b)] for a, b in r]
+
+
+def _mm(x):
+    return (list(x[0]), list(x[1]))
+
+
 class ChildrenOrderOnChunk(Case):
     """children / iteration order of a collection whose members (and the collection itself) are built on a sequence
     chunk of either strand with ANY window (cutting members, missing them, reverse strand): ordered by CHROMOSOME
@@ -275,6 +330,52 @@ class ChildrenOrderOnChunk(Case):
             d["chunk_end"] += 1
             d["chunk_seq"] = "A"
         d["chunk_strand"] = rng.choice(["PLUS", "MINUS"])
+        return d
+
+
+class ChildrenOrderWithVariants(Case):
+    """children / iteration of a collection that also holds variant collections, handed over in ANY order: all members
+    - genes, feature collections and variant collections - come out ordered by start, and iter_children() is that list."""
+    props = ("C20", "C09", "C13")
+    name = "AnnotationCollection children sorted by start[gene + feature collection + two variant collections in any order]"
+    func = AC + ".iter_children"
+    module = "gene.collections"
+    shard_depth = 5
+    call = "([c.start for c in col.children], [c.start for c in col.iter_children()], [c.start for c in col])"
+    ensures = {
+        "sorted-by-start": lambda i, r: And(*[r[0][k] <= r[0][k + 1] for k in range(3)]),
+        "every-member-once": lambda i, r: And(len(r[0]) == 4, *[
+            Or(*[r[0][a] == x for x in i.startsall]) for a in range(4)], sum(r[0], 0) == sum(i.startsall, 0)),
+        "iteration-is-children": lambda i, r: And(len(r[1]) == 4, len(r[2]) == 4, *[
+            And(a == b, a == c) for a, b, c in zip(r[0], r[1], r[2])]),
+    }
+
+    def inputs(self, S):
+        col0, kids, info = small_collection(S, ("coding", "feature"))
+        vcs, vstarts = [], []
+        for k in range(2):
+            vs, ve = S.int(f"v{k}_start"), S.int(f"v{k}_end")
+            S.assume(And(0 <= vs, vs < ve))
+            v = S.new("gene.variants.VariantInterval", vs, ve, "A", "variant")
+            vcs.append(S.new("gene.variants.VariantIntervalCollection", [v], variant_collection_id=f"hap{k}"))
+            vstarts.append(vs)
+        genes = [k for k, c in zip(kids, info) if c.kind != "feature"]
+        fcs = [k for k, c in zip(kids, info) if c.kind == "feature"]
+        # the variants lie OUTSIDE the gene and the feature (no haplotype is applied: only the order is at stake)
+        for vs, ve in zip(vstarts, [S.int("v0_end"), S.int("v1_end")]):
+            for c in info:
+                S.assume(Or(ve <= c.s, vs >= c.e))
+        col = S.new(AC, genes=genes, feature_collections=fcs, variant_collections=vcs)
+        return NS(col=col, startsall=[c.s for c in info] + vstarts)
+
+    def samples(self, rng):
+        d = sample_collection(rng, 2)
+        pts = sorted(rng.sample(range(0, 40), 8))
+        order = [0, 1, 2, 3]
+        rng.shuffle(order)
+        iv = [(pts[2 * k], pts[2 * k + 1]) for k in order]
+        d.update(s0=iv[0][0], e0=iv[0][1], s1=iv[1][0], e1=iv[1][1], v0_start=iv[2][0], v0_end=iv[2][1],
+                 v1_start=iv[3][0], v1_end=iv[3][1])
         return d
 
 
@@ -331,5 +432,5 @@ ChildrenOrder.tier = "quick"  # 0.6 s since the overlap callee contract
 K3 = ("coding", "noncoding", "feature")
 CASES = [QueryByPosition(True, ("coding", "feature")), QueryByPosition(False, ("coding", "feature")),
          QueryByPosition(True, ("noncoding", "coding")), QueryByPosition(False, ("mixed", "noncoding")),
-         QueryByPosition(True, K3), QueryByPosition(False, K3), QueryValidation(), ChildrenOrder(), ChildrenOrderOnChunk(), QueryExpand(), QueryStrictEndToEnd(),
+         QueryByPosition(True, K3), QueryByPosition(False, K3), QueryValidation(), ChildrenOrder(), ChildrenOrderOnChunk(), QueryExpand(), QueryStrictEndToEnd(), IdentifierQueries(), ChildrenOrderWithVariants(),
          QueryByPosition(False, ("split", "feature")), QueryByPosition(True, ("split", "feature")), IdQueryBounds()]
